@@ -174,14 +174,17 @@ def tokens(est, tr):
     return out
 
 
-def deep_state(est):
+def deep_state(est, values=True):
     """Identity and fitted flag of every estimator-valued constructor argument (also inside lists of tuples)."""
     out = []
 
     def visit(path, v):
         if hasattr(v, "get_params") and not isinstance(v, type):
             out.append((path, id(v), bool(getattr(v, "_is_fitted", False)),
-                        tuple(sorted(k for k in vars(v) if k.endswith("_") and not k.startswith("_")))))
+                        tuple(sorted(k for k in vars(v) if k.endswith("_") and not k.startswith("_"))),
+                        # ... and their own plain parameter values
+                        tuple(sorted((k, repr(w)) for k, w in v.get_params(deep=False).items()
+                                     if not hasattr(w, "get_params") and not isinstance(w, (list, tuple, dict)))) if values else ()))
             for k, w in v.get_params(deep=False).items():
                 visit(path + "." + k, w)
         elif isinstance(v, (list, tuple)):
@@ -202,13 +205,13 @@ def run_plan(entry, plan, seed, tid):
         ev.append({"tid": tid, "i": len(ev) + 1, "op": op, "name": name,
                    "obs": {"rej": rej, "params": tokens(est, tr), "fitted": bool(est.is_fitted if fitted is None else fitted),
                            "self": bool(self_ok), "sib": tokens(sib, tr), "sibfitted": bool(sib.is_fitted),
-                           "sibstate": deep_state(sib) == sib0, "deepok": deep_closure_ok(est)}})
+                           "sibstate": deep_state(sib, values=False) == sib0, "deepok": deep_closure_ok(est)}})
     est = entry["factory"]()
     tr = track(est)
     # a sibling built from the very same argument objects (same component list, same component instances): what is
     # done to `est` must not show in it, except through component objects the two deliberately share
     sib = type(est)(**est.get_params(deep=False))
-    sib0 = deep_state(sib)
+    sib0 = deep_state(sib, values=False)      # (nested parameter VALUES are shared with `est` by design)
     args, kw = fit_data(entry, seed)
     emit("construct", "", "", est)
     with joblib.parallel_backend("threading"):
